@@ -103,6 +103,10 @@ def classify(rec, pfail, mfail, extra, rep):
         rep.known("F-C05-3", "a mixed-direction pair whose deciding exception has a class side with both R and L members: the "
                              "exception is dropped as a whole while a less specific covering entry still applies, so the pair gets "
                              "that entry's value (neither zero nor the UFO value)")
+    if len(extra) > 6 and extra[6]:
+        rep.known("F-C05-5", "a class pair one of whose members is a left-to-right glyph (e.g. a digit) gets left-to-right value records as "
+                             "a whole: its member pairs of right-to-left-script glyphs with neutral bidi class receive the advance but no "
+                             "x-placement")
     if len(extra) > 5 and extra[5]:
         rep.known("F-C05-4", "no glyph classes are declared (no public.openTypeCategories / GDEF) but the font has attaching anchors: "
                              "the kern writer puts pairs that involve a mark glyph in the lookup that ignores marks, and feaLib "
